@@ -1,19 +1,191 @@
 (* C14 — synthesized invariants and solvable loops agree with the unsolvable loop.
-   Only property theorems, each closed by [exact] and followed by Print Assumptions. *)
+   Only property theorems, each closed by [exact] and followed by Print Assumptions, and
+   non-vacuity / refutation examples by vm_compute. *)
 From Coq Require Import List String QArith Qcanon ZArith.
 From Polar Require Import Qcx CRing ExpPoly ClosedForm Dist Syntax Sem Types Poly Pipeline Wp Synth.
 Import ListNotations.
 Open Scope string_scope.
 
 (* V: a pair (Q, f) accepted by the validator satisfies E[Q(state after n iterations)] = f(n)
-   for EVERY n and every admissible start state.  The validator recomputes wp(Q) through the
-   flat program (C03's exact model), finds k*Q in it, requires the rest to be a combination
-   of monomials whose moments have validated closed forms (C03 + C04 validators, special
-   cases included), f(0) = wp(init, Q), and f(n+1) = k f(n) + sum c_i E[M_i]_n for all n. *)
+   for EVERY n and every admissible start state, for deterministic and probabilistic loops.
+   The validator recomputes wp(Q) through the flat program (C03's exact model), removes k*Q,
+   requires the rest to be a combination of monomials ("effective items", any number of them)
+   whose moments have validated closed forms (C03 + C04 validators, special cases
+   included; the constant is the empty monomial), f(0) = wp(init, Q), and
+   f(n+1) = k f(n) + sum c_i E[M_i]_n  for all n (computed for the finitely many n touched by
+   special cases, by the exponential-polynomial identity shift f = k f + sum c_i g_i beyond).
+   f itself may carry special values fsp for n < length fsp. *)
 Theorem C14_check_synth_sound :
   forall law cmom, cmom_ok law cmom ->
-  forall fp T Q k items f, check_synth cmom fp T Q k items f = true ->
+  forall fp T Q k items fsp f, check_synth cmom fp T Q k items fsp f = true ->
   forall s0, init_ok fp T s0 ->
-  forall n, E (frun law fp n s0) (eval_poly Q) = eevalQ f n.
+  forall n, E (frun law fp n s0) (eval_poly Q) = fval fsp f n.
 Proof. exact check_synth_sound. Qed.
 Print Assumptions C14_check_synth_sound.
+
+(* k need not be known: any of a list of candidates (the harness passes Polar's k and the
+   coefficient ratios of wp(Q) and Q) *)
+Theorem C14_check_synth_any_sound :
+  forall law cmom, cmom_ok law cmom ->
+  forall fp T Q ks items fsp f, check_synth_any cmom fp T Q ks items fsp f = true ->
+  forall s0, init_ok fp T s0 ->
+  forall n, E (frun law fp n s0) (eval_poly Q) = fval fsp f n.
+Proof. exact check_synth_any_sound. Qed.
+Print Assumptions C14_check_synth_any_sound.
+
+(* the discrete instance is hypothesis-free: programs without continuous draws *)
+Theorem C14_check_synth_sound_discrete :
+  forall fp T Q ks items fsp f, check_synth_any cm0 fp T Q ks items fsp f = true ->
+  forall s0, init_ok fp T s0 ->
+  forall n, E (frun no_law fp n s0) (eval_poly Q) = fval fsp f n.
+Proof. exact (check_synth_any_sound no_law cm0 cm0_ok). Qed.
+Print Assumptions C14_check_synth_sound_discrete.
+
+(* what the validator establishes about each effective monomial *)
+Theorem C14_effective_item_sound :
+  forall law cmom, cmom_ok law cmom ->
+  forall fp T it, check_types fp T = true -> check_item cmom fp T it = true ->
+  forall s0, init_ok fp T s0 ->
+  forall n, E (frun law fp n s0) (eval_mono (ei_mono it)) = ei_val it n.
+Proof. exact item_sound. Qed.
+Print Assumptions C14_effective_item_sound.
+
+(* the k = 1 search and the general search (or synth_inv and synth_loop) may return the same Q
+   with different closed forms: accepted ones denote the same sequence *)
+Theorem C14_accepted_closed_forms_agree :
+  forall law cmom, cmom_ok law cmom ->
+  forall fp T Q k items fsp f k' items' fsp' f',
+  check_synth cmom fp T Q k items fsp f = true -> check_synth cmom fp T Q k' items' fsp' f' = true ->
+  forall s0, init_ok fp T s0 -> forall n, fval fsp f n = fval fsp' f' n.
+Proof. exact check_synth_agree. Qed.
+Print Assumptions C14_accepted_closed_forms_agree.
+
+(* V: the synthesized solvable loop fpS with fresh variable sv simulates the original loop fpO:
+   if a linear system over monomials ms (containing the effective monomials of wp(Q) - k*Q and
+   the retained variables) is exact and closed in BOTH programs with equal initial values, and
+   wp_S(sv) = k*sv + R where R = wp_O(Q) - k*Q, and sv starts at E[Q]_0, then for ALL n
+   E_S[sv]_n = E_O[Q]_n and every monomial of the system has the same moment in both loops. *)
+Theorem C14_synth_loop_simulates :
+  forall law cmom, cmom_ok law cmom ->
+  forall fpO TO fpS TS Q sv k ms A v, check_sim cmom fpO TO fpS TS Q sv k ms A v = true ->
+  forall s0 s0', init_ok fpO TO s0 -> init_ok fpS TS s0' ->
+  forall n,
+    E (frun law fpS n s0') (fun s : state => s sv) = E (frun law fpO n s0) (eval_poly Q)
+    /\ moments_vec law fpS ms n s0' = moments_vec law fpO ms n s0.
+Proof. exact check_sim_sound. Qed.
+Print Assumptions C14_synth_loop_simulates.
+
+(* loops that are already solvable (no fresh variable): retained variables only *)
+Theorem C14_synth_loop_retained_moments :
+  forall law cmom, cmom_ok law cmom ->
+  forall fpO TO fpS TS ms A v, check_sys_agree cmom fpO TO fpS TS ms A v = true ->
+  forall s0 s0', init_ok fpO TO s0 -> init_ok fpS TS s0' ->
+  forall n, moments_vec law fpS ms n s0' = moments_vec law fpO ms n s0.
+Proof. exact check_sys_agree_sound. Qed.
+Print Assumptions C14_synth_loop_retained_moments.
+
+(* ---- non-vacuity: tests/unsolvable_benchmarks/squares.prob at x0 = 2, y0 = -1, _u = 1 ---- *)
+Definition det (x : var) (e : expr) : gassign :=
+  {| ga_var := x; ga_cond := CTrue; ga_default := x; ga_rhs := RDet e |}.
+Definition q (a : Z) (b : positive) : expr := EConst (mkq a b).
+Definition sq_fp : flatprog :=
+  {| fp_init := [det "x" (q 2 1); det "y" (q (-1) 1); det "z" (q 0 1)];
+     fp_body := [det "z" (ESub (q 1 1) (EVar "z"));
+                 det "x" (EAdd (EAdd (EMul (q 2 1) (EVar "x")) (EPow (EVar "y") 2)) (EVar "z"));
+                 det "y" (EAdd (ESub (EMul (q 2 1) (EVar "y")) (EPow (EVar "y") 2)) (EMul (q 2 1) (EVar "z")))] |}.
+Definition sq_T : tenv := [("z", [mkq 0 1; mkq 1 1])].
+Definition sq_Q : poly := [(mkq 1 3, [("x", 1%nat)]); (mkq 1 3, [("y", 1%nat)])].
+Definition const_item : eitem :=
+  {| ei_ms := [[]]; ei_A := [[mkq 1 1]]; ei_v := [mkq 1 1]; ei_F := [[(mkq 1 1, [mkq 1 1])]]; ei_sp := []; ei_idx := 0 |}.
+Definition sq_item_z : eitem :=   (* E(z)_n = 1/2 - (-1)^n/2, as Polar's solver writes it: Piecewise with one special case *)
+  {| ei_ms := [[("z", 1%nat)]; []]; ei_A := [[mkq (-1) 1; mkq 1 1]; [mkq 0 1; mkq 1 1]]; ei_v := [mkq 0 1; mkq 1 1];
+     ei_F := [[(mkq 1 1, [mkq 1 2]); (mkq (-1) 1, [mkq (-1) 2])]; [(mkq 1 1, [mkq 1 1])]];
+     ei_sp := [[mkq 0 1; mkq 1 1]]; ei_idx := 0 |}.
+(* Polar: -(-1)^n (1/3 - (-2)^n/3)/2 + 5*2^n/6 - 1/2 *)
+Definition sq_f : epolyQ := [(mkq 1 1, [mkq (-1) 2]); (mkq (-1) 1, [mkq (-1) 6]); (mkq 2 1, [mkq 1 1])].
+Example C14_nonvacuous_squares :
+  check_synth_any cm0 sq_fp sq_T sq_Q [mkq 2 1; mkq 0 1] [sq_item_z; const_item] [] sq_f = true.
+Proof. vm_compute. reflexivity. Qed.
+(* the validator is not trivially true: the same closed form one iteration ahead (f(n+1) for
+   f(n): an off-by-one between n and n-1) and a wrong k are rejected *)
+Example C14_rejects_shifted_closed_form :
+  check_synth_any cm0 sq_fp sq_T sq_Q [mkq 2 1; mkq 0 1] [sq_item_z; const_item] []
+    [(mkq 1 1, [mkq (-1) 2]); (mkq (-1) 1, [mkq 1 6]); (mkq 2 1, [mkq 2 1])] = false.
+Proof. vm_compute. reflexivity. Qed.
+Example C14_rejects_wrong_k :
+  check_synth cm0 sq_fp sq_T sq_Q (mkq 3 1) [sq_item_z; const_item] [] sq_f = false.
+Proof. vm_compute. reflexivity. Qed.
+
+(* the synthesized loop of the same benchmark:  _t = 1 - z; _s = 2*_s + 1 - z; z = _t *)
+Definition sq_S : flatprog :=
+  {| fp_init := [det "_t" (q 0 1); det "_s" (q 1 3); det "z" (EVar "_t")];
+     fp_body := [det "_t" (ESub (q 1 1) (EVar "z"));
+                 det "_s" (EAdd (EAdd (EMul (q 2 1) (EVar "_s")) (q 1 1)) (EMul (q (-1) 1) (EVar "z")));
+                 det "z" (EVar "_t")] |}.
+Example C14_nonvacuous_squares_loop :
+  check_sim cm0 sq_fp sq_T sq_S [] sq_Q "_s" (mkq 2 1) [[("z", 1%nat)]; []]
+    [[mkq (-1) 1; mkq 1 1]; [mkq 0 1; mkq 1 1]] [mkq 0 1; mkq 1 1] = true.
+Proof. vm_compute. reflexivity. Qed.
+(* wrong wiring of the fresh variable (initialised with 0 instead of E[Q]_0) is rejected *)
+Example C14_rejects_wrong_wiring :
+  check_sim cm0 sq_fp sq_T
+    {| fp_init := [det "_t" (q 0 1); det "_s" (q 0 1); det "z" (EVar "_t")]; fp_body := fp_body sq_S |}
+    [] sq_Q "_s" (mkq 2 1) [[("z", 1%nat)]; []]
+    [[mkq (-1) 1; mkq 1 1]; [mkq 0 1; mkq 1 1]] [mkq 0 1; mkq 1 1] = false.
+Proof. vm_compute. reflexivity. Qed.
+
+(* ---- finding 1 (utils/solvers.py:solve_rec_by_summing drops the special cases of the effective
+   part), witness  z=5; x=1; y=2; while true: x=2x+y^2+z; y=2y-y^2+2z; z = 1 {1/2} 0 ---- *)
+Definition w1_fp : flatprog :=
+  {| fp_init := [det "z" (q 5 1); det "x" (q 1 1); det "y" (q 2 1)];
+     fp_body := [det "x" (EAdd (EAdd (EMul (q 2 1) (EVar "x")) (EPow (EVar "y") 2)) (EVar "z"));
+                 det "y" (EAdd (ESub (EMul (q 2 1) (EVar "y")) (EPow (EVar "y") 2)) (EMul (q 2 1) (EVar "z")));
+                 {| ga_var := "z"; ga_cond := CTrue; ga_default := "z";
+                    ga_rhs := RChoice [(q 1 2, q 1 1); (q 1 2, q 0 1)] |}] |}.
+Definition w1_T : tenv := [("z", [mkq 0 1; mkq 1 1; mkq 5 1])].
+Definition w1_Q : poly := [(mkq 1 1, [("x", 1%nat)]); (mkq 1 1, [("y", 1%nat)])].
+Definition w1_item_z : eitem :=   (* E(z)_n = Piecewise((5, n <= 0), (1/2, True)) *)
+  {| ei_ms := [[("z", 1%nat)]; []]; ei_A := [[mkq 0 1; mkq 1 2]; [mkq 0 1; mkq 1 1]]; ei_v := [mkq 5 1; mkq 1 1];
+     ei_F := [[(mkq 1 1, [mkq 1 2])]; [(mkq 1 1, [mkq 1 1])]]; ei_sp := [[mkq 5 1; mkq 1 1]]; ei_idx := 0 |}.
+(* Polar returns E(x+y) = 3*(3*2^n/2 - 1/2) *)
+Definition w1_f_polar : epolyQ := [(mkq 2 1, [mkq 9 2]); (mkq 1 1, [mkq (-3) 2])].
+Example C14_summing_defect_refuted :
+  Qc_eqb (E (frun no_law w1_fp 1 st0) (eval_poly w1_Q)) (mkq 21 1) = true
+  /\ Qc_eqb (eevalQ w1_f_polar 1) (mkq 15 2) = true
+  /\ check_synth_any cm0 w1_fp w1_T w1_Q [mkq 2 1] [w1_item_z; const_item] [] w1_f_polar = false.
+Proof. vm_compute. repeat split; reflexivity. Qed.
+(* the repaired result Piecewise((3, n <= 0), (3*(15*2^n - 2)/4, True)) is accepted: all n *)
+Example C14_summing_defect_repaired :
+  check_synth_any cm0 w1_fp w1_T w1_Q [mkq 2 1] [w1_item_z; const_item] [mkq 3 1]
+    [(mkq 2 1, [mkq 45 4]); (mkq 1 1, [mkq (-3) 2])] = true.
+Proof. vm_compute. reflexivity. Qed.
+
+(* ---- finding 2 (SolvLoopSynthesizer derandomises the effective variables), witness
+   z=0; x=1; y=2; while true: z = z+1 {1/2} z-1; x=2x+y^2+z^2; y=2y-y^2+2z;
+   synthesized:  _t=0; _s=3; z=_t; while true: _t = z; _s = 2*_s + 1 + 2z + z^2; z = _t ---- *)
+Definition w2_O : flatprog :=
+  {| fp_init := [det "z" (q 0 1); det "x" (q 1 1); det "y" (q 2 1)];
+     fp_body := [{| ga_var := "z"; ga_cond := CTrue; ga_default := "z";
+                    ga_rhs := RChoice [(q 1 2, EAdd (EVar "z") (q 1 1)); (q 1 2, EAdd (EVar "z") (q (-1) 1))] |};
+                 det "x" (EAdd (EAdd (EMul (q 2 1) (EVar "x")) (EPow (EVar "y") 2)) (EPow (EVar "z") 2));
+                 det "y" (EAdd (ESub (EMul (q 2 1) (EVar "y")) (EPow (EVar "y") 2)) (EMul (q 2 1) (EVar "z")))] |}.
+Definition w2_S : flatprog :=
+  {| fp_init := [det "_t" (q 0 1); det "_s" (q 3 1); det "z" (EVar "_t")];
+     fp_body := [det "_t" (EVar "z");
+                 det "_s" (EAdd (EAdd (EAdd (EMul (q 2 1) (EVar "_s")) (q 1 1)) (EMul (q 2 1) (EVar "z"))) (EPow (EVar "z") 2));
+                 det "z" (EVar "_t")] |}.
+Example C14_derandomised_loop_refuted :
+  Qc_eqb (E (frun no_law w2_O 2 st0) (eval_poly w1_Q)) (mkq 16 1) = true
+  /\ Qc_eqb (E (frun no_law w2_S 2 st0) (fun s : state => s "_s")) (mkq 15 1) = true.
+Proof. vm_compute. split; reflexivity. Qed.
+(* the repaired loop (fresh variable first, original assignment of z kept) is accepted: all n *)
+Definition w2_S' : flatprog :=
+  {| fp_init := [det "_s" (q 3 1); det "z" (q 0 1)];
+     fp_body := [det "_s" (EAdd (EAdd (EAdd (EMul (q 2 1) (EVar "_s")) (q 1 1)) (EMul (q 2 1) (EVar "z"))) (EPow (EVar "z") 2));
+                 {| ga_var := "z"; ga_cond := CTrue; ga_default := "z";
+                    ga_rhs := RChoice [(q 1 2, EAdd (EVar "z") (q 1 1)); (q 1 2, EAdd (EVar "z") (q (-1) 1))] |}] |}.
+Example C14_derandomised_loop_repaired :
+  check_sim cm0 w2_O [] w2_S' [] w1_Q "_s" (mkq 2 1) [[("z", 2%nat)]; [("z", 1%nat)]; []]
+    [[mkq 1 1; mkq 0 1; mkq 1 1]; [mkq 0 1; mkq 1 1; mkq 0 1]; [mkq 0 1; mkq 0 1; mkq 1 1]]
+    [mkq 0 1; mkq 0 1; mkq 1 1] = true.
+Proof. vm_compute. reflexivity. Qed.
